@@ -779,6 +779,10 @@ namespace ip {
 
 	void tcp::socket::packet_dropped(aux::packet p)
 	{
+		// the connection is gone once end-of-file (or an error) has been read,
+		// although the socket is still open
+		if (!m_channel) return;
+
 		int remote = m_channel->remote_idx(m_bound_to);
 		p.hops = m_channel->hops[remote];
 
@@ -839,7 +843,7 @@ namespace ip {
 				// potentially resend packets. A resent packet may be dropped by the
 				// first hop right away, which puts it back at the end of the
 				// list: try each packet at most once per ACK
-				for (std::size_t n = m_outgoing_packets.size(); n > 0
+				for (std::size_t n = m_outgoing_packets.size(); n > 0 && m_channel
 					&& !m_outgoing_packets.empty()
 					&& m_bytes_in_flight
 						+ int(m_outgoing_packets.front().buffer.size()) <= m_cwnd; --n)
